@@ -1622,3 +1622,33 @@ Qed.
 Theorem reports_durable_all d c lg ops tr : d_report_early d = false ->
   rrun d c lg (init_sys d c) ops = Some tr -> reports_durable (shadow_init (c_init c)) ops tr.
 Proof. intros Hg Hr. eapply rrun_reports_durable; [exact Hg|apply shadow_init_ok|exact Hr]. Qed.
+
+(** * The commit queue is a FIFO with blocking hand-over: what a step hands over is appended to the
+    queue in publish order, and the executor takes the head.  (The observations [b_ev] of a trace are the
+    events in the order the consumer takes them from [Order.Commit()]; the lagging-consumer histories of
+    the check compare that order with this one.) *)
+Theorem queue_fifo d c lg s op s' o : rstep d c lg s op = Some (s', o) ->
+  match op with
+  | OExec => queue (ex s') = tl (queue (ex s)) /\ o_ev o = []
+  | OCrash _ => queue (ex s') = o_ev o
+  | _ => queue (ex s') = queue (ex s) ++ o_ev o
+  end.
+Proof.
+  intro Hst. destruct op; cbn [rstep] in Hst.
+  - destruct (avail s <? N.of_nat (length lg)); [|discriminate]. inversion Hst; subst. cbn. rewrite app_nil_r. reflexivity.
+  - destruct ((1 <=? lo) && (lo <=? applied (mem s) + 1) && (hi <=? app) && (app <=? avail s)
+              && (stored (disk s) <=? app) && (lo <=? hi + 1)); [|discriminate].
+    destruct (publish c (leader_change c (mem s) lead)
+                (entries_to_apply (leader_change c (mem s) lead) lo (seg lg lo (N.to_nat (hi + 1 - lo))))) as [m1 evs].
+    inversion Hst; subst. reflexivity.
+  - destruct (queue (ex s)) as [|[i [h t]] q] eqn:Eq; inversion Hst; subst; cbn; rewrite ?Eq; split; reflexivity.
+  - destruct (report_allowed d (ex s) h); [|discriminate].
+    destruct (alookup N.eqb h (bai (mem s))); inversion Hst; subst; cbn; rewrite app_nil_r; reflexivity.
+  - match type of Hst with (if ?cnd then _ else _) = _ => destruct cnd; [|discriminate] end.
+    inversion Hst; subst. reflexivity.
+  - match type of Hst with (if ?cnd then _ else _) = _ => destruct cnd; [|discriminate] end.
+    inversion Hst; subst. reflexivity.
+  - destruct (leader (mem s) =? c_id c); [inversion Hst; subst; cbn; rewrite app_nil_r; reflexivity|].
+    destruct (k =? 0); [|discriminate]. inversion Hst; subst. cbn. rewrite app_nil_r. reflexivity.
+  - inversion Hst; subst. cbn. rewrite app_nil_r. reflexivity.
+Qed.
